@@ -1020,6 +1020,7 @@ NUM_OF_REQUIRED_TYPE_ARGS_EXACT = {
     'Iterable': 1,
     'Sequence': 1,
     'Dict': 2,
+    'Type': 1,
     'Optional': 2,  # because _get_type_arguments(Optional[int]) returns (int, None)
 }
 NUM_OF_REQUIRED_TYPE_ARGS_MIN = {
